@@ -23,7 +23,7 @@ CLAIMS = {
          "abstract interpretation of constant tables over ROBDDs + MIR pattern match of the evaluator", True),
 
  "C20": ("other",
-         "Structural non-interference argument: no shared mutable state anywhere in the library crates (statics, interior mutability, atomics/locks/thread_local), backend handle only read through Module::ptr, no unsafe in the threaded crate, and at both thread::scope sites the partition is exact (chunk = ceil(items/threads) of the very slice chunked, same `threads` for the scratch windows, global index = base + thread*chunk + local, decided as polynomial identities over MIR); single-thread variants forward with threads = 1. Decides the scheduling/partition clauses for every thread count at once; does not execute anything, so bit-equality of the per-item computation relies on C11/C12 clauses.",
+         "Structural non-interference argument: no shared mutable state anywhere in the library crates (statics, interior mutability, atomics/locks/thread_local), backend handle only read through Module::ptr, no unsafe in the threaded crate, and at both thread::scope sites the partition is exact (chunk = ceil(items/threads) of the very slice chunked, same `threads` for the scratch windows, global index = base + thread*chunk + local, decided as polynomial identities over MIR); single-thread variants forward with threads = 1; window parameters (<x>_start / _end / _count) keep their role across forwarding calls (THR-6); a chunk length items.div_ceil(threads) is floored at 1 or the empty case is decided before (THR-7). Decides the scheduling/partition clauses for every thread count at once; does not execute anything, so bit-equality of the per-item computation relies on C11/C12 clauses.",
          "DESIGN.md §3 C20",
          "Trusted: rustc borrow checker and std::thread::scope; per-item determinism is delegated to C11/C12 rules.",
          "MIR dataflow + polynomial identity of partition indices + type/field walk for shared state", True),
@@ -35,7 +35,7 @@ CLAIMS = {
          "MIR taint tracking + dominator-based guard validation + path-trace comparison of writer/reader", True),
 
  "C06": ("other",
-         "Interprocedural role inference over every `&mut Source` / seed value (fixpoint over ~300 functions in all layers and backends) plus must-call analysis on the do-while-abstracted CFG: every routine that draws a mask or error stream injects noise on every returning path; result-writing normalisations in the three noise kernels are dominated by a noise sink in the same loop; mask streams feed masks only; parameters named source_xe/source_xa/seed_xa/source_xu have exactly that role; NoiseInfos comes from the caller's enc_infos; noise, mask and normalisation use one radix; no constant or loop-invariant seeds; no other entropy; HashMap iteration order neutralised. Decides the injection / seed-separation / determinism clauses on all paths of all routines; sigma, bound and uniformity statistics are not decided.",
+         "Interprocedural role inference over every `&mut Source` / seed value (fixpoint over ~300 functions in all layers and backends) plus must-call analysis on the do-while-abstracted CFG: every routine that draws a mask or error stream injects noise on every returning path; result-writing normalisations in the three noise kernels are dominated by a noise sink in the same loop; mask streams feed masks only; parameters named source_xe/source_xa/seed_xa/source_xu have exactly that role; NoiseInfos comes from the caller's enc_infos; noise, mask and normalisation use one radix; no constant or loop-invariant seeds; no other entropy; HashMap iteration order neutralised; fixed-Hamming-weight samplers set each of their hw slots to a value that is non-zero for both values of the random bit (RND-8). Decides the injection / seed-separation / determinism clauses on all paths of all routines; sigma, bound and uniformity statistics are not decided.",
          "DESIGN.md §3 C06",
          "Trusted: the sampling primitives below the HAL behave as documented; do-while abstraction of row/column loops.",
          "MIR dataflow: interprocedural role inference + post-dominator must-call + symbolic radix equality", True),
@@ -57,19 +57,19 @@ CLAIMS = {
          "Trusted: per-limb kernels compute the ring map.",
          "shared limb-coverage / column analysis restricted to the C09 files + sibling verdict comparison", True),
  "C02": ("other",
-         "Only the shape clause of C02 is decided: result columns of the noise-free GLWE operations are all written (COL-1, over every rank assignment of a grid), the underlying shape functions cover every limb and honour columns (WR-1/WR-2 on the C02 files), each in-place variant uses the in-place twins of its out-of-place sibling's HAL operations (SIB-1), and the operand-sign discipline of the add/sub families holds for mixed ranks (SIGN-1), the in-place negating forms visit every column of the result (COL-1) and read operands are indexed within their own rank (COL-2). Phase linearity is arithmetic and not decided.",
+         "Only the shape clause of C02 is decided: result columns of the noise-free GLWE operations are all written (COL-1, over every rank assignment of a grid), the underlying shape functions cover every limb and honour columns (WR-1/WR-2 on the C02 files), each in-place variant uses the in-place twins of its out-of-place sibling's HAL operations (SIB-1), and the operand-sign discipline of the add/sub families holds for mixed ranks (SIGN-1), the in-place negating forms visit every column of the result (COL-1), read operands are indexed within their own rank (COL-2) and limb-wise two-operand operations compare the radices of the objects they move limbs between (COL-3). Phase linearity is arithmetic and not decided.",
          "DESIGN.md §3 C02 and C09, §8",
          "Trusted: HAL kernels; asserted rank preconditions.",
          "shared limb/column coverage analysis + call-set comparison of assign twins", True),
 
  "C12": ("other",
-         "Structural scratch accounting on MIR. SC-1: for the 438 (operation, companion) pairs whose size query mirrors the operation's nesting of takes (found through the entry guards or by name, frozen in rules/sc1_pairs.json), the scratch chain of the operation is simulated on every path (takes accumulate, consumers need their own declared companion, closures and un-companioned helpers inlined) and every demand monomial must be contained - as a multiset of size-atom kinds, nested queries expanded - in a monomial of the companion's max-plus expression on every compatible path; HAL queries stay uninterpreted so the verdict covers every backend. SC-2: entry guards name the operation's own (family) companion. SC-3: on every path the first effective use of an object taken from scratch initialises it (path-sensitive typestate over 220+ take sites, closures followed, interprocedural per-parameter summaries, set_size-before-write tracked so that 'written at a reduced size, grown, accumulated' is reported). SC-4: takes that cannot be 64-byte multiples followed by another consumer must be padded by the companion. SC-5: only the scratch carver builds scratch views from raw bytes. SC-6: a temporary created from a layout literal and handed to a nested operation is declared by the nested query on a literal with dominated fields. SC-7: at size-query call sites a role-named usize argument sits in the parameter position of that name (declared trait names). SC-1 also reports, for pairs outside mirror form, the uncovered demand monomials listed with a failing input in rules/sc1_confirmed.json while they stay uncovered. SC-8: every operand whose size a taken temporary grows with occurs in the companion's term of the same kind (every pair; takes of free helpers and of query-less internal routines included). SC-9: vectors of temporaries alive together are paid for by the companion. SC-10: an operation called on the remainder of its caller's scratch does not demand the caller's own query again. SC-11: column counts handed to size queries are not integer literals >= 2. SC-12: a dispatching operation is mirrored by a query deciding on the same quantities. SC-13: per-thread windows handed to split_mut contain no bare LWE-sized term. Thorough tier: compile-fail witnesses for scratch carving and dangling temporaries. Argument-level arithmetic of the size queries and pairs not in mirror form are not decided.",
+         "Structural scratch accounting on MIR. SC-1: for the 438 (operation, companion) pairs whose size query mirrors the operation's nesting of takes (found through the entry guards or by name, frozen in rules/sc1_pairs.json), the scratch chain of the operation is simulated on every path (takes accumulate, consumers need their own declared companion, closures and un-companioned helpers inlined) and every demand monomial must be contained - as a multiset of size-atom kinds, nested queries expanded - in a monomial of the companion's max-plus expression on every compatible path; HAL queries stay uninterpreted so the verdict covers every backend. SC-2: entry guards name the operation's own (family) companion. SC-3: on every path the first effective use of an object taken from scratch initialises it (path-sensitive typestate over 220+ take sites, closures followed, interprocedural per-parameter summaries, set_size-before-write tracked so that 'written at a reduced size, grown, accumulated' is reported). SC-4: takes that cannot be 64-byte multiples followed by another consumer must be padded by the companion. SC-5: only the scratch carver builds scratch views from raw bytes. SC-6: a temporary created from a layout literal and handed to a nested operation is declared by the nested query on a literal with dominated fields. SC-7: at size-query call sites a role-named usize argument sits in the parameter position of that name (declared trait names). SC-1 also reports, for pairs outside mirror form, the uncovered demand monomials listed with a failing input in rules/sc1_confirmed.json while they stay uncovered. SC-8: every operand whose size a taken temporary grows with occurs in the companion's term of the same kind (every pair; takes of free helpers and of query-less internal routines included). SC-9: vectors of temporaries alive together are paid for by the companion. SC-10: an operation called on the remainder of its caller's scratch does not demand the caller's own query again. SC-11: column counts handed to size queries are not integer literals >= 2. SC-12: a dispatching operation is mirrored by a query deciding on the same quantities. SC-13: per-thread windows handed to split_mut contain no bare LWE-sized term. SC-14: a size query with a `threads` parameter multiplies its per-thread query by that parameter. Thorough tier: compile-fail witnesses for scratch carving and dangling temporaries. Argument-level arithmetic of the size queries and pairs not in mirror form are not decided.",
          "DESIGN.md §3 C12, §8, §9",
          "Trusted: modular assumption (each callee meets its own declaration), monotone size queries; mirror-form table frozen from the reference tree.",
          "max-plus symbolic accounting over MIR paths + path-sensitive typestate of scratch temporaries", True),
 
  "C16": ("other",
-         "Metadata-write and error-path discipline of the CKKS layer on MIR: CKKSMeta is written only by the owning modules (78 sites); every usize subtraction of budget/precision accessors is dominated by a comparison establishing minuend >= subtrahend over the same value numbers (or is one of two reasoned table exceptions); automorphism-key lookups and checked budget arithmetic are never unwrapped; every out-of-place `*_into*` operation defines both dst.meta fields on every success return (interprocedural summary over 60 operations through delegates and backend impls); an equality fast path and the ordering branches following it compare the same pair of quantities; the parameter derivation of ct x ct multiplication is invariant under exchanging the operands (CK-6); a core operation asserting k.div_ceil(base2k) == x.size() is not handed (x, x.effective_k()) (CK-7, the never-panics clause for non-compact operands); every out-of-place operation consults the destination's capacity before storing source-derived metadata (CK-8); exponent balance of products - ct x ct: cnv_offset + res_log_budget == budget_a + budget_b, ct x pt: the plaintext's bit position is independent of the ciphertext's metadata, constants sit at their effective_k - decided as piecewise-linear identities over the expressions extracted from MIR (CK-9); the offset returned by ensure_plaintext_alignment is used (CK-10). Slot values and error magnitudes are not decided.",
+         "Metadata-write and error-path discipline of the CKKS layer on MIR: CKKSMeta is written only by the owning modules (78 sites); every usize subtraction of budget/precision accessors is dominated by a comparison establishing minuend >= subtrahend over the same value numbers (or is one of two reasoned table exceptions); automorphism-key lookups and checked budget arithmetic are never unwrapped; every out-of-place `*_into*` operation defines both dst.meta fields on every success return (interprocedural summary over 60 operations through delegates and backend impls); an equality fast path and the ordering branches following it compare the same pair of quantities; the parameter derivation of ct x ct multiplication is invariant under exchanging the operands (CK-6); a core operation asserting k.div_ceil(base2k) == x.size() is not handed (x, x.effective_k()) (CK-7, the never-panics clause for non-compact operands); every out-of-place operation consults the destination's capacity before storing source-derived metadata (CK-8); exponent balance of products - ct x ct: cnv_offset + res_log_budget == budget_a + budget_b, ct x pt: the plaintext's bit position is independent of the ciphertext's metadata, constants sit at their effective_k - decided as piecewise-linear identities over the expressions extracted from MIR (CK-9); the offset returned by ensure_plaintext_alignment is used (CK-10); value-preserving operations satisfy shift(operand) + stored result log_budget == operand log_budget on every success path (CK-11, path-wise). Slot values and error magnitudes are not decided.",
          "DESIGN.md §3 C16",
          "Trusted: a ciphertext with metadata (log_delta, log_budget) holds m * 2^-log_budget on the torus and cnv_offset scales a product by 2^cnv_offset (CK-9's laws); other poulpy-core shape asserts are outside the property; metadata need not be untouched on Err.",
          "MIR dominator-based guard analysis + interprocedural must-define summary + comparison-chain consistency + piecewise-linear identity checking of extracted metadata expressions", True),
